@@ -264,6 +264,26 @@ impl GossipNodeState {
             self.incarnation > other.incarnation
         }
     }
+
+    /// Deterministic tie-break for two states of the same node with equal
+    /// incarnation and timestamp: the more severe health wins
+    /// (Failed > Degraded > Healthy > Unknown), so replicas that received the
+    /// same updates converge regardless of delivery order.
+    #[must_use]
+    pub const fn wins_tie(&self, other: &Self) -> bool {
+        self.incarnation == other.incarnation
+            && self.timestamp == other.timestamp
+            && Self::health_rank(self.health) > Self::health_rank(other.health)
+    }
+
+    const fn health_rank(health: NodeHealth) -> u8 {
+        match health {
+            NodeHealth::Failed => 3,
+            NodeHealth::Degraded => 2,
+            NodeHealth::Healthy => 1,
+            NodeHealth::Unknown => 0,
+        }
+    }
 }
 
 /// Gossip protocol messages.
@@ -366,7 +386,7 @@ impl LWWMembershipState {
 
         for state in incoming {
             let should_update = self.states.get(&state.node_id).map_or(true, |existing| {
-                let supersedes = state.supersedes(existing);
+                let supersedes = state.supersedes(existing) || state.wins_tie(existing);
                 if supersedes {
                     tracing::debug!(
                         node_id = %state.node_id,
